@@ -62,6 +62,10 @@ class Builder:
         if spec.get('silent'):
             from connectome.interface.nodes import Silent
             f.__annotations__ = {p: Silent for p in spec['silent']}
+        if spec.get('outargs'):
+            # `def z(y: Output)`: the argument is the layer's own output `y`, not the input of that name
+            from connectome.interface.nodes import Output
+            f.__annotations__ = dict(getattr(f, '__annotations__', {}), **{p: Output for p in spec['outargs']})
         return f
 
     def decorate(self, f, spec):
